@@ -308,7 +308,14 @@ Definition spec_wire (o : obs) : bool :=
       h3_eqb (h3_of r) (o_h o) &&
       bytes_eqb (cert_signature r) (o_sig_out o)
     end
-  else N.eqb (o_signer_in o) (if o_fep o then fep_of (o_final o) else pp_of (o_final o)).
+  else
+    N.eqb (o_signer_in o) (if o_fep o then fep_of (o_final o) else pp_of (o_final o)) &&
+    (* whatever else is non-canonical: the global index WORD of every imported exit on the wire is the number both commitments cover
+       (GenerateGlobalIndex: a set mainnet flag clears the rollup index) *)
+    match o_wire o with
+    | None => true
+    | Some w => list_eqb bytes_eqb (map w_gi (wc_imported w)) (map (fun i => fbe 32 (gi_value (ie_gi i))) (c_imported (o_final o)))
+    end.
 (* the STORED copy reproduces the covered fields, the commitments and the signature *)
 Definition spec_stored (o : obs) : bool :=
   if canonicalb (o_final o) then
